@@ -7,6 +7,13 @@ pub fn main(args: &util::Args) {
     match util::compile_text(&dir, &src) {
         Outcome::Ok(c) => {
             println!("OK");
+            if args.rest.iter().any(|a| a == "--dump") {
+                // the stage dumps `gomlmodel sem` / `gomlmodel srcsem` read (one TSV line per stage)
+                let mut out = String::new();
+                crate::c01::dump_src("probe", &dir.join("main.gom"), &src, &mut out);
+                crate::c01::dump_case("probe", &c, &mut out);
+                print!("{}", out);
+            }
             if args.rest.iter().any(|a| a == "--go") {
                 println!("{}", c.go.to_pretty(&c.goenv, 120));
             }
